@@ -416,7 +416,7 @@ func lineShape(line any) string {
 	return "?"
 }
 
-var storeTraceSpec = tv.Spec{Module: "StoreTrace", Config: "StoreTrace.cfg"}
+var storeTraceSpec = tv.Spec{Module: "StoreTrace", Config: "StoreTrace.cfg", Timeout: 30 * time.Minute}
 
 func validateStoreTraces(run *core.Run, traces []tv.Trace) {
 	out, err := tv.Validate(storeTraceSpec, nil, traces, 6)
